@@ -574,7 +574,21 @@ async fn direct(plan: Plan, world: Shared) -> RunOutput {
     if last_planned >= now_ms {
         tokio::time::sleep(Duration::from_millis(last_planned - now_ms + 1)).await;
     }
-    tokio::time::sleep(QUIESCENCE).await;
+    // ... and the transport has been silent for 60 s (a client that is still pushing a cancelled
+    // request through a slow transport is not quiescent yet); capped so that a client that never
+    // falls silent is still judged
+    let quiet_deadline = tokio::time::Instant::now() + HANG_LIMIT;
+    loop {
+        let (now, last) = {
+            let w = world.lock().unwrap_or_else(|e| e.into_inner());
+            (w.now_ms(), w.last_io_ms)
+        };
+        let quiet_at = last + QUIESCENCE.as_millis() as u64;
+        if now >= quiet_at || tokio::time::Instant::now() >= quiet_deadline {
+            break;
+        }
+        tokio::time::sleep(Duration::from_millis(quiet_at - now)).await;
+    }
     let (quiescence_seq, idle_at_quiescence, ended) = {
         let mut w = world.lock().unwrap_or_else(|e| e.into_inner());
         let seq = w.log(Ev::Director("quiescence".into()));
